@@ -24,13 +24,31 @@ def main():
     ap.add_argument("name")
     ap.add_argument("--src", required=True)
     ap.add_argument("--demo", action="append", default=[])
-    ap.add_argument("--run", required=True)
+    ap.add_argument("--run", default="")
     ap.add_argument("--checks", required=True)
     ap.add_argument("--tier", default="quick")
     ap.add_argument("--suite", default="./storage/... ./regattaserver/... ./replication/...")
     ap.add_argument("--property", default=None)
     ap.add_argument("--needs", default="")
+    ap.add_argument("--auto", action="store_true", help="derive --demo and --run from the files and demo_path.txt in --src")
     a = ap.parse_args()
+    if a.auto:
+        txt = open(os.path.join(a.src, "demo_path.txt")).read() if os.path.exists(os.path.join(a.src, "demo_path.txt")) else ""
+        demos = []
+        for root, _, files in os.walk(a.src):
+            for f in files:
+                if f.endswith("_test.go"):
+                    rel = os.path.relpath(os.path.join(root, f), a.src)
+                    if "/" in rel:
+                        demos.append(f"{rel}:{rel}")
+                    else:
+                        m = re.search(r"([\w./-]+/" + re.escape(f) + r")", txt)
+                        if not m:
+                            print("cannot place demo", f); sys.exit(2)
+                        demos.append(f"{rel}:{m.group(1).lstrip('./')}")
+        a.demo = demos
+        pk = sorted(set("./" + os.path.dirname(d.split(":")[1]) + "/" for d in demos))
+        a.run = "-run TestSeedDemo " + " ".join(pk)
     wt = f"/var/tmp/sv-{a.name}"
     sh(f"git -C /repo worktree remove --force {wt}")
     rc, out = sh(f"git -C /repo worktree add --detach {wt} HEAD")
